@@ -131,6 +131,10 @@ def run_check(prop, tier):
                        workers, replay_paths, len(jobs))
     stuck = sorted(p for p in getattr(wl, "EXPECTED_PROBES", [])
                    if not agg.counters.get("probe." + p))
+    unexercised = sorted(agg.sets.get("uncovered_api", ()))
+    if unexercised:
+        print("WARNING: public API outside the operation table: %s" %
+              ", ".join(unexercised))
     if stuck and not os.environ.get("VERIF_STOP_ON_VIOLATION"):
         print("WARNING: rare-condition probes never hit in this run: %s" %
               ", ".join(stuck))
